@@ -278,7 +278,7 @@ pub fn dispatch(kind: &str, v: &Value) -> Option<Outcome> {
 pub fn run(ctx: &Ctx) -> i32 {
     let mut st = ctx.run_replays(&dispatch);
     let t = ctx.tier;
-    let (len, total) = t.pick((10usize, 6000u64), (30, 150000));
+    let (len, total) = t.pick((10usize, 40000u64), (30, 800000));
     for (name, exact) in [("exact-programs", true), ("mixed-programs", false)] {
         let cfg = base_cfg(exact, t);
         let strat = move || (recipe_strategy(len), prop::collection::vec(any::<u8>(), 1..64)).boxed();
